@@ -62,7 +62,8 @@ Inductive op :=
 | Leaf (l : nat) (cp : Z)                        (* a library operator with its capability *)
 | Sum (ops : list (op * bool))                   (* SumOperator: _ops, _neg *)
 | Chain (ops : list op)                          (* ChainOperator: _ops *)
-| Adapter (o : op) (tr : Z).                     (* OperatorAdapter: _op, _trafo *)
+| Adapter (o : op) (tr : Z)                      (* OperatorAdapter: _op, _trafo *)
+| Sandw (bun cheese inner : op).                 (* SandwichOperator: _bun, _cheese, _op *)
 
 Variable leaf_apply : nat -> Z -> vec -> vec.    (* library operator l applied in mode m *)
 
@@ -79,6 +80,7 @@ Fixpoint cap (o : op) : Z :=
       (fix go (l : list op) : Z :=
          match l with [] => t_all_ops | a :: t => Z.land (go t) (cap a) end) ops
   | Adapter o tr => capTable tr (cap o)
+  | Sandw _ _ i => cap i                         (* self._capability = op._capability *)
   end.
 
 (* ---- DiagonalOperator helpers ---- *)
@@ -136,6 +138,7 @@ Fixpoint apply (o : op) (m : Z) (x : vec) : vec :=
       then (fix go (l : list op) : vec := match l with [] => x | a :: t => apply a m (go t) end) ops
       else (fix go (l : list op) (y : vec) : vec := match l with [] => y | a :: t => go t (apply a m y) end) ops x
   | Adapter o tr => apply o (modeTable tr (ilog m)) x
+  | Sandw _ _ i => apply i m x                   (* return self._op.apply(x, mode) *)
   end.
 
 (* ---- ChainOperator.simplify / make ---- *)
@@ -309,7 +312,7 @@ Fixpoint flip (t : Z) (o : op) : op :=
       else mk_chain (rev (map (flip t) ops))   (* = [op._flip_modes(t) for op in reversed(ops)] *)
   | Adapter o' tr =>
       let nt := Z.lxor t tr in if Z.eqb nt 0 then o' else Adapter o' nt
-  | Leaf _ _ | Sum _ => Adapter o t
+  | Leaf _ _ | Sum _ | Sandw _ _ _ => Adapter o t
   end.
 
 (* the `adjoint` property: SumOperator overrides it, everything else is _flip_modes(ADJOINT_BIT) *)
@@ -320,11 +323,32 @@ Fixpoint adjoint_prop (o : op) : op :=
   end.
 Definition inverse_prop (o : op) : op := flip t_INVERSE_BIT o.
 
+(* ---- SandwichOperator.make(bun, cheese) ---- *)
+Definition is_sandw (o : op) : bool := match o with Sandw _ _ _ => true | _ => false end.
+
+Definition mk_sandwich (bun cheese : op) : op :=
+  (* if isinstance(cheese, SandwichOperator): cheese = old._cheese; bun = old._bun @ bun *)
+  let '(bun, cheese) :=
+    match cheese with
+    | Sandw b0 c0 _ => (matmul b0 bun, c0)
+    | _ => (bun, cheese)
+    end in
+  match bun with
+  | Scal f _ =>
+      (* fct = abs(bun._factor)**2; if fct == 1.: return cheese; op = cheese.scale(fct) *)
+      let fct := mul A f (conj A f) in
+      if eqb A fct (one A) then cheese else Sandw bun cheese (scale fct cheese)
+  | _ =>
+      (* op = bun.adjoint @ cheese @ bun *)
+      Sandw bun cheese (matmul (matmul (adjoint_prop bun) cheese) bun)
+  end.
+
 (* ---- expressions: what a user writes with + - @ scalar* .adjoint .inverse ---- *)
 Inductive expr :=
 | EPrim (o : op)                 (* Scal / Diag / Leaf given directly *)
 | EAdd (a b : expr) | ESub (a b : expr) | EComp (a b : expr)
-| EScale (c : T) (a : expr) | ENeg (a : expr) | EAdj (a : expr) | EInv (a : expr).
+| EScale (c : T) (a : expr) | ENeg (a : expr) | EAdj (a : expr) | EInv (a : expr)
+| ESandwich (bun cheese : expr).   (* SandwichOperator.make(bun, cheese) *)
 
 Fixpoint build (e : expr) : op :=
   match e with
@@ -336,11 +360,12 @@ Fixpoint build (e : expr) : op :=
   | ENeg a => negate (build a)
   | EAdj a => adjoint_prop (build a)
   | EInv a => inverse_prop (build a)
+  | ESandwich b c => mk_sandwich (build b) (build c)
   end.
 
 End Alg.
 
 Arguments Scal {A}. Arguments Diag {A}. Arguments Leaf {A}. Arguments Sum {A}. Arguments Chain {A}.
-Arguments Adapter {A}.
+Arguments Adapter {A}. Arguments Sandw {A}. Arguments ESandwich {A}.
 Arguments EPrim {A}. Arguments EAdd {A}. Arguments ESub {A}. Arguments EComp {A}. Arguments EScale {A}.
 Arguments ENeg {A}. Arguments EAdj {A}. Arguments EInv {A}.
